@@ -13,6 +13,7 @@ import (
 	"crypto/elliptic"
 	"fmt"
 	"math/big"
+	"os"
 	"sort"
 	"strings"
 	"sync"
@@ -313,6 +314,7 @@ func (j c17Job) tag() string {
 
 // TestVerifC17_shamir: Share(n) with identifiers 1..n, every subset, enumerated orders.
 func TestVerifC17_shamir(t *testing.T) {
+	c17DefaultConfigOnly(t)
 	r := verifmc.Start(t, "C17", "shamir")
 	defer r.Finish()
 	ov := verifmc.NewOrderedViolations(r)
@@ -380,13 +382,16 @@ func c17IDAlphabet(G c17G, seed int64) []*big.Int {
 
 // TestVerifC17_shamir_ids: shares made with ShareWithID on arbitrary non-zero identifiers.
 func TestVerifC17_shamir_ids(t *testing.T) {
+	c17DefaultConfigOnly(t)
 	r := verifmc.Start(t, "C17", "shamir_ids")
 	defer r.Finish()
 	ov := verifmc.NewOrderedViolations(r)
 	defer ov.Flush()
 	maxT := r.Pick(4, 6)
 	r.Rule("groups x t in 0..maxT x secrets x ShareWithID on the 7 identifiers {2, q-1, q-2, (q+1)/2, 2^64, SHAKE0, SHAKE1}: every subset of the 7 shares with t, t+1 or t+2 members (and all 7), " +
-		"every ordering up to 3 members, else rotations and reversal; the zero identifier is outside the property (documented panic) and only observed; non-trivial = distinct (group,t,secret,ordered index list)")
+		"every ordering up to 3 members, else rotations and reversal; the zero identifier is outside the property (documented panic) and only observed; " +
+		"then the same dealing again with all identifiers passed through ONE scalar object rewritten in place between the calls (SetUint64/SetBigInt, Set, Add), the caller's id scalar and one returned share overwritten afterwards (the secret scalar passed to New is overwritten in both dealings): " +
+		"every other share must be unchanged, verify against CommitSecret, and pass the same subset enumeration; non-trivial = distinct (group,t,secret,dealing style,ordered index list)")
 	r.Set("max_t", maxT)
 	type job struct {
 		G   c17G
@@ -410,7 +415,9 @@ func TestVerifC17_shamir_ids(t *testing.T) {
 		ids := c17IDAlphabet(j.G, r.Seed())
 		var d c17Dealt
 		panicked, what := verifmc.Try(func() {
-			d.ss = secretsharing.New(verifmc.NewDetReader("c17-coeff/"+tag), uint(j.t), j.G.scalar(j.sec.v))
+			secObj := j.G.scalar(j.sec.v)
+			d.ss = secretsharing.New(verifmc.NewDetReader("c17-coeff/"+tag), uint(j.t), secObj)
+			secObj.SetUint64(12345) // the caller's secret variable is reused for something else
 			for _, id := range ids {
 				d.add(j.G, d.ss.ShareWithID(j.G.scalar(id)))
 			}
@@ -430,9 +437,84 @@ func TestVerifC17_shamir_ids(t *testing.T) {
 		// zero identifier: documented to panic; nothing is demanded, the behaviour is recorded.
 		p, _ := verifmc.Try(func() { d.ss.ShareWithID(j.G.g.NewScalar()) })
 		r.Outcome(map[bool]string{true: "zero-id:panic(documented)", false: "zero-id:share-returned"}[p])
+
+		// The same identifiers dealt through ONE scalar object that the caller rewrites in place between the calls
+		// (SetUint64 / Set / Add), then keeps using; the secret object handed to New and one returned share are
+		// overwritten as well. Dealt shares are values of their own: the other shares must be exactly those above.
+		tag2 := fmt.Sprintf("%s/t=%d/ids=arbitrary-through-one-reused-scalar/secret=%s", j.G.name, j.t, j.sec.name)
+		if !c17WantPrefix(r, tag2) {
+			return
+		}
+		var d2 c17Dealt
+		var coms secretsharing.SecretCommitment
+		var raw []secretsharing.Share
+		panicked, what = verifmc.Try(func() {
+			d2.ss = d.ss // the same polynomial (ristretto255 would draw fresh coefficients in a second New)
+			id := j.G.g.NewScalar()
+			one := j.G.g.NewScalar().SetUint64(1)
+			for k, v := range ids {
+				switch k % 3 {
+				case 0:
+					if v.IsUint64() {
+						id.SetUint64(v.Uint64())
+					} else {
+						id.SetBigInt(v)
+					}
+				case 1:
+					id.Set(j.G.scalar(v))
+				default:
+					id.Add(j.G.scalar(new(big.Int).Sub(v, big.NewInt(1))), one)
+				}
+				raw = append(raw, d2.ss.ShareWithID(id))
+			}
+			// a victim share for identifier 3, dealt through the same object, then overwritten by its holder
+			id.SetUint64(3)
+			victim := d2.ss.ShareWithID(id)
+			id.SetUint64(7) // the caller goes on using its variable
+			id.Add(id, one)
+			victim.ID.SetUint64(5)
+			victim.Value.SetUint64(9)
+			coms = d2.ss.CommitSecret()
+		})
+		if panicked {
+			ov.Add([]int{7, j.t, i, 1}, "C17|secretsharing.ShareWithID|panic:"+verifmc.PanicClass(what)+"|reused-id-object", tag2, tag2+": New/ShareWithID/CommitSecret panicked: "+what, nil)
+			return
+		}
+		for _, sh := range raw { // image taken after all the rewriting
+			d2.add(j.G, sh)
+		}
+		intact := true
+		for k := range ids {
+			r.Eval(1)
+			r.Distinct(tag2, "dealt", k)
+			if d2.ids[k].Cmp(ids[k]) != 0 || d2.vals[k].Cmp(d.vals[k]) != 0 {
+				intact = false
+				ov.Add([]int{7, j.t, i, 1, k}, "C17|secretsharing.ShareWithID|dealt-share-changes-when-the-caller-reuses-its-scalar", fmt.Sprintf("%s|share#%d", tag2, k),
+					fmt.Sprintf("%s: share #%d was dealt for identifier %s (value %s); after the caller rewrote its own id scalar and another share, it reads (id %s, value %s)",
+						tag2, k, ids[k].Text(16), d.vals[k].Text(16), d2.ids[k].Text(16), d2.vals[k].Text(16)),
+					map[string]interface{}{"group": j.G.name, "t": j.t, "secret": j.sec.v.Text(16), "identifier": ids[k].Text(16)})
+			} else {
+				r.Count("shares_intact_after_caller_reuses_its_scalars", 1)
+			}
+			var ok bool
+			if p, what := verifmc.Try(func() { ok = secretsharing.Verify(uint(j.t), raw[k], coms) }); p {
+				ov.Add([]int{7, j.t, i, 2, k}, "C17|secretsharing.Verify|panic:"+verifmc.PanicClass(what)+"|reused-id-object", fmt.Sprintf("%s|share#%d|dealt", tag2, k), tag2+": Verify panicked: "+what, nil)
+			} else if !ok {
+				ov.Add([]int{7, j.t, i, 2, k}, "C17|secretsharing.Verify|dealt-share-rejected|dealt-through-reused-id-object", fmt.Sprintf("%s|share#%d|dealt", tag2, k),
+					fmt.Sprintf("%s: share #%d dealt for identifier %s does not verify against the dealer's commitment", tag2, k, ids[k].Text(16)), nil)
+			} else {
+				r.Count("dealt_through_reused_object_verified", 1)
+			}
+		}
+		r.Outcome(fmt.Sprintf("reused-id-object:intact=%v", intact))
+		c17CheckRecover(r, ov, []int{7, j.t, i, 3}, false, j.G, j.t, j.sec, &d2, "ids-arbitrary-through-one-reused-scalar", tag2, 3, func(s int) bool {
+			return s == j.t || s == j.t+1 || s == j.t+2 || s == len(ids)
+		})
 	})
-	r.RequireCounter("qualified_recovered", 500)
-	r.RequireCounter("unqualified_refused", 100)
+	r.RequireCounter("qualified_recovered", 1000)
+	r.RequireCounter("unqualified_refused", 200)
+	r.RequireCounter("shares_intact_after_caller_reuses_its_scalars", 500)
+	r.RequireCounter("dealt_through_reused_object_verified", 500)
 }
 
 // TestVerifC17_feldman: Verify against CommitSecret for dealt and altered shares / commitments.
@@ -767,4 +849,12 @@ func TestVerifC17_refcheck(t *testing.T) {
 	}
 	sort.Strings(ss)
 	r.Sample(map[string]interface{}{"groups": ss, "shoup_max_l": maxL})
+}
+
+// c17DefaultConfigOnly: units whose code under test is math/big only (no CPU-feature dependent paths) run in the
+// default configuration; the other configurations of checks.d/C17.json exist for the Feldman unit (P-384 arithmetic).
+func c17DefaultConfigOnly(t *testing.T) {
+	if c := os.Getenv("VERIF_CONFIG"); c != "" && c != "default" {
+		t.Skip("unit runs in the default configuration only")
+	}
 }
